@@ -3,6 +3,7 @@ real pygopherd server classes on top of the simulated scheduler / network /
 file system, and provides the sequential reference server."""
 import configparser
 import copy
+import errno
 import gc
 import io
 import os
@@ -355,6 +356,9 @@ class ForkSim:
         self.violations = []
         self.mem = None
         self.block_intervals = []   # (from, to, live children) of every blocking waitpid
+        self.fork_calls = 0
+        self.fail_forks = set()     # ordinal numbers of fork() calls that fail with EAGAIN
+        self.failed_clients = []
 
     def fork(self):
         sim = self.sim
@@ -364,6 +368,13 @@ class ForkSim:
         me = sim.me()
         if me is None or me.is_main:
             raise sched.HarnessError("fork() outside an actor")
+        self.fork_calls += 1
+        if self.fork_calls in self.fail_forks:
+            # a transient resource limit (RLIMIT_NPROC, memory): this one fork() fails
+            ca = sys._getframe(1).f_locals.get("client_address")
+            self.failed_clients.append(tuple(ca) if ca else None)
+            self.run.count("fork_failed")
+            raise BlockingIOError(errno.EAGAIN, "Resource temporarily unavailable")
         # the child re-enters the function that called fork() with the same arguments (whatever its
         # name and signature are); its own os.fork() then returns 0
         frame = sys._getframe(1)
@@ -662,6 +673,24 @@ class SimRun:
             syslog.openlog = lambda *a, **k: None
             syslog.syslog = lambda *a: self._logfn(a[-1])
         pyg.logger.init(self.config)
+        # signal dispositions as the program sets them up (recorded, never installed): bin/pygopherd's
+        # start-up installs its handlers through initialization.init_signal_handlers()
+        import signal as _signal
+        self.sigdisp = {int(_signal.SIGPIPE): _signal.SIG_IGN}     # what CPython starts with
+        self._saved_signal = _signal.signal
+        _signal.signal = lambda signum, handler: self.sigdisp.__setitem__(int(signum), handler)
+        try:
+            pyg.initialization.init_signal_handlers()
+        finally:
+            _signal.signal = self._saved_signal
+        self.killed_by_sigpipe = 0
+
+        def on_epipe():
+            if self.sigdisp.get(int(_signal.SIGPIPE)) == _signal.SIG_DFL:
+                self.killed_by_sigpipe += 1
+                self.sim.note("killed-by-SIGPIPE")
+                raise sched.SimProcessExit(128 + int(_signal.SIGPIPE))
+        self.net.on_epipe = on_epipe
         pyg.initialization.init_exceptions(self.config)
         ctx = simnet.FakeTLSContext(self.net) if self.tls else None
         self.tlsctx = ctx
